@@ -530,7 +530,7 @@ func (e *Exec) makeSlice(t types.Type, n, c *Term) Value {
 	if isByte(elem) {
 		if e.h.ConcreteMake && !e.inInit {
 			// harness option: case-split allocation sizes so that fills and copies unroll exactly
-			if _, ok := c.ConstU64(); !ok && e.branch(tb.Cmp(OpUle, c, tb.BVu(uint64(e.h.BufMax), 64))) {
+			if _, ok := c.ConstU64(); !ok && e.branch(tb.Cmp(OpUle, c, tb.BVu(uint64(e.h.BufMax), 64))) && e.fewValues(c, 8) {
 				cv := e.concretize(c, "make size")
 				c = tb.BVu(cv, 64)
 				if _, ok := n.ConstU64(); !ok {
